@@ -196,6 +196,34 @@ claim('C06',
                     'whether a very deep acyclic chain yields its value or a bounded failure.',
       '§7 C06')
 
+claim('C07',
+      'TLA+ specs XlValues (operators with leftmost-error propagation), XlErr (strict functions hand on the leftmost error among '
+      'scalar arguments and range elements; inspectors), XlSig (witness table of every registered function); TLC enumerates operator '
+      'x position x code x partner, the operand type matrix, every witness x every injection point x code, and checks the '
+      'propagation laws; dump replayed through native / wrapped / literal-formula / referenced-cell-formula paths incl. stored values; '
+      'seeded multi-error calls validated by TLC (Trace_C07); error chains validated by TLC (Trace_Formula)',
+      'Exhaustive: 12 binary operators x both positions x 7 codes x 9 partner values, all 49 code pairs (leftmost wins), unary '
+      'operators, the 9x9 operand matrix (value or Excel error, never a Python exception / NaN / infinity), 104 call shapes covering '
+      'every registered function that is not error-opaque x every scalar and every range-element position x 7 codes plus pairs of '
+      'positions, ISERROR/ISERR/ISNA on all codes and on non-errors, NA(), ISNUMBER/ISTEXT/ISBLANK on non-error values. Laws on the '
+      'spec (leftmost, the result is one of the argument errors, ISERR/ISNA split ISERROR) are TLC invariants. Chains A1=error, '
+      'B1=A1+1, C1=B1&"x" ... are read back through get_cell_value.',
+      COMMON_NOTE + ' Left open: which error when another argument would fail on its own, error arguments of ISNUMBER/ISTEXT/ISBLANK, '
+                    'unselected CHOOSE values, lookup tables containing errors, VDB. Known findings F-C07-01 (native OP_EQ/OP_NE), F-C07-02 (SUMPRODUCT #N/A).',
+      '§7 C07')
+claim('C09',
+      'TLA+ spec XlValues (Cmp3 total order, blank equalities); TLC checks trichotomy, derived operators, antisymmetry, transitivity '
+      '(all triples), rank order, case-insensitivity and blank equalities as invariants of the spec; every ordered pair x 6 operators '
+      'replayed through native, wrapped and formula paths; seeded pairs validated by TLC (Trace_Calls)',
+      'All 24^2 ordered pairs of a value set (ints, fractions, negative, zero, dates with and without a time, texts: empty, '
+      'numeric-looking, case variants, prefixes of one another, "true"/"FALSE", a blank-only text, non-ASCII; booleans; blank) x 6 '
+      'operators, and all 24^3 triples for transitivity on the specification. Formulas =X op Y use literals and cells, so blanks are '
+      'real empty cells. Because every cell of the observed truth table is compared with a table TLC has shown to be a total order, '
+      'an order law broken by the code shows as a disagreement.',
+      COMMON_NOTE + ' Left open: ordering (not equality) with a blank operand, texts with code points outside the simple case table. '
+                    'Known finding F-C09-01 (native-operand OP_EQ/OP_NE, pinned by a test).',
+      '§7 C09')
+
 ALL = ['C%02d' % i for i in range(1, 21)]
 
 
